@@ -201,9 +201,13 @@ pub fn line_atoms(d: &Delims, n: &Names, reduced: bool) -> Vec<String> {
         format!("w {}\n", o(Kind::Expired, false)),
         // a closing tag with a line break inside it (line breaks are legal separators in a tag)
         format!("{}/{}\n{}\n", d.ds, n.tl, d.de),
+        // code behind a closing tag on its line
+        format!("{} k\n", c(&n.tl)),
     ];
     if !reduced {
         v.extend([
+            // a closing tag that carries an attribute still closes
+            format!("{}/{} end{}\n", d.ds, n.tl, d.de),
             "  \n".to_string(),
             "あ\n".to_string(),
             format!("{}\n", o(Kind::Future, true)),
@@ -238,7 +242,8 @@ pub enum Item {
     /// it cannot be unwrapped (three lines: tag, code, tag)
     ShortUnwrap { kind: Kind },
     /// two elements on one line: side by side, or the second nested in the first
-    /// `touching` (only when not nested): no byte between the first closing and the second opening tag
+    /// `touching`: no byte between the first closing and the second opening tag; nested: the second
+    /// is the only child of the first, no byte between the two opening and the two closing tags
     Inline2 { k1: Kind, k2: Kind, nested: bool, touching: bool },
     /// two nested default-strategy blocks whose tags share lines: `<o1><o2>` / body / `</c2></c1>`
     Block2 { k1: Kind, k2: Kind, body: Vec<Item> },
@@ -340,6 +345,8 @@ fn gen_list(ch: &mut Chooser, p: &AstParams, budget: &mut usize, depth: usize) -
                 opts.push(Opt::Inline2(k1, k2, false, false));
                 opts.push(Opt::Inline2(k1, k2, true, false));
                 opts.push(Opt::Inline2(k1, k2, false, true));
+                // the second is the only child of the first and touches both of its tags
+                opts.push(Opt::Inline2(k1, k2, true, true));
                 if depth < p.max_depth && *budget >= 2 {
                     opts.push(Opt::Block2(k1, k2));
                 }
@@ -619,11 +626,15 @@ fn render_list(
                 let (a1, a2, b1, b2);
                 if *nested {
                     a1 = span(&mut text, &o1);
-                    text.push_str(&format!(" {}i ", id));
+                    if !*touching {
+                        text.push_str(&format!(" {}i ", id));
+                    }
                     b1 = span(&mut text, &o2);
                     text.push_str(&format!(" {}j ", id));
                     b2 = span(&mut text, &c2);
-                    text.push_str(&format!(" {}k ", id));
+                    if !*touching {
+                        text.push_str(&format!(" {}k ", id));
+                    }
                     a2 = span(&mut text, &c1);
                 } else {
                     a1 = span(&mut text, &o1);
